@@ -18,7 +18,7 @@ static size_t pick_max_size(Rng &rng, int tier, int level) {
 struct C01 : Driver {
   const char *prop() const override { return "C01"; }
   const char *level() const override { return "exploration"; }
-  const char *variants(int) const override { return "plain ndebug/4"; }   // assertion-free build = the shipped semantics
+  const char *variants(int) const override { return "plain ndebug/4 preempt/4"; }   // ndebug: assertion-free build = the shipped semantics; preempt: decision points inside unsynchronised code too
   uint64_t ncases(int tier) const override { return tier ? 300000 : 20000; }
   std::string rule() const override {
     return "case = (generated input, level 1-9, --sequential or not, -n 1..16, stdin file/pipe with fragmentation, seeded scheduling policy) compressed in one simulated process and "
@@ -65,7 +65,7 @@ static Registrar r01(new C01);
 struct C03 : Driver {
   const char *prop() const override { return "C03"; }
   const char *level() const override { return "exploration"; }
-  const char *variants(int) const override { return "plain ndebug/4"; }   // assertion-free build = the shipped semantics
+  const char *variants(int) const override { return "plain ndebug/4 preempt/4"; }   // ndebug: assertion-free build = the shipped semantics; preempt: decision points inside unsynchronised code too
   uint64_t ncases(int tier) const override { return tier ? 40000 : 6000; }
   std::string rule() const override {
     return "case = one (input, level, mode) compressed under K configurations (K=6 quick, 16-24 thorough) of everything that must not matter: -n 1..16, scheduling policy and seed incl. starved reader/writer/worker, "
@@ -173,7 +173,7 @@ static Bytes some_compressed(Rng &rng, int tier, Bytes *plain_out, std::string *
 struct C09 : Driver {
   const char *prop() const override { return "C09"; }
   const char *level() const override { return "exploration"; }
-  const char *variants(int) const override { return "plain ndebug/4"; }   // assertion-free build = the shipped semantics
+  const char *variants(int) const override { return "plain ndebug/4 preempt/4"; }   // ndebug: assertion-free build = the shipped semantics; preempt: decision points inside unsynchronised code too
   uint64_t ncases(int tier) const override { return tier ? 80000 : 8000; }
   std::string rule() const override {
     return "case = one compressed input (valid, invalid or documented-exception; libbz2 output, generated streams, planted block-header patterns, truncations) decompressed under K configurations (K=6 quick, 12-16 thorough): "
@@ -245,7 +245,7 @@ static Registrar r09(new C09);
 struct C11 : Driver {
   const char *prop() const override { return "C11"; }
   const char *level() const override { return "exploration"; }
-  const char *variants(int) const override { return "plain ndebug/4"; }   // assertion-free build = the shipped semantics
+  const char *variants(int) const override { return "plain ndebug/4 preempt/4"; }   // ndebug: assertion-free build = the shipped semantics; preempt: decision points inside unsynchronised code too
   uint64_t ncases(int tier) const override { return tier ? 600000 : 50000; }
   std::string rule() const override {
     return "case = one simulated run of compression (default or --sequential; 0..40 chunks, chunks that split into several blocks, tiny last chunks), decompression (0..60 blocks, blocks that emit many output buffers, "
@@ -370,8 +370,8 @@ static Registrar r11(new C11);
 static Case gen_mixed(uint64_t seed, int tier, const char *prop, bool threads_only) {
   Rng rng(seed);
   Case c; c.prop = prop;
-  int kind = (int)rng.below(8);
-  kind = kind < 3 ? 0 : kind < 6 ? 1 : 2;     // 0 compress(+decompress), 1 decompress anything, 2 copy
+  int kind = (int)rng.below(10);
+  kind = kind < 3 ? 0 : kind < 6 ? 1 : kind < 8 ? 2 : 3;     // 0 compress(+decompress), 1 decompress anything, 2 copy, 3 FILE operands (main.c, signals.c paths)
   c.p["kind"] = kind;
   int W = threads_only ? 2 + (int)rng.below(7) : random_workers(rng);
   if (kind == 0) {
@@ -385,12 +385,34 @@ static Case gen_mixed(uint64_t seed, int tier, const char *prop, bool threads_on
     c.data = some_compressed(rng, tier, &plain, &c.data_desc, &validity);
     c.runs.push_back(decompress_cfg(rng, W, true, c.data.size(), plain.size() + 1));
     if (rng.below(4) == 0) c.runs.back().argv.push_back("-t");
-  } else {
+  } else if (kind == 2) {
     size_t G = rng.below(2) ? (4u << rng.below(10)) : 0;
     c.data = gen::random_bytes(rng, rng.below((G ? G : 65536) * 4), 256);
     if (c.data.size() >= 3 && c.data[0] == 'B' && c.data[1] == 'Z') c.data[0] = 'b';
     c.data_desc = "copy " + std::to_string(c.data.size()) + "B";
     RunCfg r; r.argv = {"-n", std::to_string(W), "-cdf"}; r.copy_granul = G; r.sched = random_sched(rng); r.in_frag = random_frag(rng);
+    c.runs.push_back(r);
+  } else {
+    // FILE operands: admission, naming, metadata, input removal, the error path through bailout()/SIGUSR1
+    bool dec = rng.below(2);
+    RunCfg r; r.argv = {"-n", std::to_string(W)};
+    if (dec) r.argv.push_back("-d"); else r.argv.push_back("-1");
+    if (rng.below(2)) r.argv.push_back("-k");
+    if (rng.below(4) == 0) r.argv.push_back("-v");
+    if (rng.below(5) == 0) r.argv.push_back("-f");
+    int nop = 1 + (int)rng.below(3);
+    for (int i = 0; i < nop; i++) {
+      FileSpec f; f.name = std::string(1, (char)('a' + i)) + (dec ? ".bz2" : ".txt");
+      Bytes plain = gen::random_bytes(rng, rng.below(3) ? rng.below(3000) : rng.below(150000), 1 + (unsigned)rng.below(256));
+      f.data = dec ? bz::libbz2_encode(plain, 1 + (int)rng.below(9)) : plain;
+      if (dec && rng.below(4) == 0 && f.data.size() > 14) f.data[10 + rng.below(f.data.size() - 10)] ^= 0x10;    // corrupt: fatal error in a worker
+      if (rng.below(5) == 0) f.nlink_extra = 1;
+      if (rng.below(6) != 0) c.files.push_back(f);    // otherwise missing
+      if (rng.below(6) == 0) { FileSpec o; o.name = dec ? f.name.substr(0, 1) : f.name + ".bz2"; o.data = "x"; c.files.push_back(o); }
+      r.argv.push_back(f.name);
+    }
+    r.sched = random_sched(rng);
+    c.data_desc = std::string(dec ? "decompress " : "compress ") + std::to_string(nop) + " FILE operands";
     c.runs.push_back(r);
   }
   return c;
@@ -400,7 +422,7 @@ static Verdict eval_mixed(const Case &c, Ctx &ctx, bool heap_monitor) {
   int kind = (int)c.p.at("kind");
   RunCfg r0 = c.runs[0];
   r0.step_budget = 0;
-  sim::Result a = exec(r0, c.data, {}, ctx);
+  sim::Result a = exec(r0, c.data, c.files, ctx);
   if (heap_monitor && !a.monitor.empty() && a.monitor.compare(0, 5, "heap:") == 0) return Verdict::fail("heap", a.monitor + " -- " + a.describe());
   if (kind == 0 && c.runs.size() > 1 && a.exited(0)) {
     sim::Result b = exec(c.runs[1], a.out, {}, ctx);
@@ -409,7 +431,7 @@ static Verdict eval_mixed(const Case &c, Ctx &ctx, bool heap_monitor) {
   }
   if (ctx.st) {
     ctx.st->distinct("nontrivial", sim::fnv(a.ihash, sim::hash_bytes(c.data.data(), c.data.size())));
-    static const char *kn[] = {"compress+decompress", "decompress", "copy"};
+    static const char *kn[] = {"compress+decompress", "decompress", "copy", "file-operands"};
     ctx.st->inc(std::string("kind.") + kn[kind]);
     add_sample(ctx, c, obs_json(a));
   }
